@@ -105,6 +105,7 @@ type Cfg struct {
 	FirstContent   string `json:"first_content,omitempty"`   // what that function returns ("-" = empty content; unset = "first")
 	ResetOnEmpty   bool   `json:"reset_on_empty,omitempty"`  // engine.Config.ResetOnEmptyInput
 	FinishLate     bool   `json:"finish_late,omitempty"`     // Finish is called once, when an engine is retired (as engine.Loop's defer), not after every request
+	KeepPersister  bool   `json:"keep_persister,omitempty"`  // every session keeps its own persist.Persister between requests and selects its session through it (Persister.WithSession) before each request
 	SharePersister bool   `json:"share_persister,omitempty"` // one persist.Persister (WithFlush) is reused for every engine of every session of the world
 }
 
@@ -171,6 +172,8 @@ type Sess struct {
 	// closed). FirstBlocked counts them.
 	BlockFirstNext string
 	FirstBlocked   int
+	keptPe         *persist.Persister
+	keptPeStore    db.Db
 	PosLog        []Pos // position after every request
 }
 
@@ -472,10 +475,17 @@ func (s *Sess) build() error {
 		if s.Store == nil {
 			return fmt.Errorf("no store")
 		}
-		if s.W.Cfg.SetSession {
+		if s.W.Cfg.SetSession && !s.W.Cfg.KeepPersister {
 			s.Store.SetSession(s.ID)
 		}
-		if s.W.Cfg.SharePersister {
+		if s.W.Cfg.KeepPersister {
+			if s.keptPe == nil || s.keptPeStore != s.Store {
+				s.keptPe = persist.NewPersister(s.Store)
+				s.keptPeStore = s.Store
+			}
+			s.Pe = s.keptPe
+			s.Pe.WithSession(s.ID)
+		} else if s.W.Cfg.SharePersister {
 			// a gateway that keeps one flushing persister over its one store handle
 			if s.W.sharedPe == nil || s.W.sharedPeStore != s.Store {
 				s.W.sharedPe = persist.NewPersister(s.Store).WithFlush()
